@@ -116,6 +116,8 @@ class Sys:
             out = ("ok", r)
         except Boom:
             out = ("boom", None)
+        except Exception as e:  # noqa: BLE001 - whatever the cache itself raises is an observation
+            out = ("raised:" + type(e).__name__, None)
         finally:
             self.fail_next = False
         return out, len(self.invocations) > before
@@ -162,7 +164,7 @@ TIERS = {
         (2, False, [1, 2, 3, 14], "func", 5), (2, True, [1, 2, 3, 5, 6], "func", 4),
         (1, False, [1, 4, 9, 13], "func", 5), (None, False, [5, 6, 7, 8, 12, 13], "func", 4),
         (0, False, [1, 2], "func", 4), (-1, True, [1, 14], "func", 4),
-        (3, False, [10, 11, 12, 16, 5], "func", 4), (2, False, [1, 2, 14], "method", 4),
+        (3, False, [10, 11, 12, 16, 5], "func", 4), (3, True, [10, 16, 12, 11], "func", 4), (2, False, [1, 2, 14], "method", 4),
         (128, False, [1, 2, 3, 14, 15], "bare", 4), (None, False, [1, 2, 3, 13], "cache", 4),
         (2, False, [1, 14], "classmethod", 4), (2, True, [1, 2], "staticmethod", 4),
     ],
